@@ -237,6 +237,8 @@ func (reqDom) Gen(r *gen.R, tier string, emit func(string)) {
 		opName := "req"
 		if r.Chance(1, 25) {
 			opName = "reqn" // the message carries no reply subject
+		} else if r.Chance(1, 6) {
+			opName = "reqr" // routed sub-mux + Handler.Listeners
 		} else if r.Chance(1, 4) && (rname == "svc" || strings.HasPrefix(rname, "svc.")) && !strings.Contains(rname, "..") && !strings.HasSuffix(rname, ".") {
 			opName = r.Pick([]string{"req1", "req2", "req3"})
 		}
@@ -573,9 +575,26 @@ func (reqDom) Exec(a []string) string {
 			s.SetLogger(logger.NewStdLogger().SetTrace(true))
 		}
 		s.SetWorkerCount(2)
-		s.Handle(pat, opts...)
 		n, _ := strconv.Atoi(nls)
-		for i := 0; i < n; i++ {
+		firstAdd := 0
+		toks := strings.SplitN(pat, ".", 2)
+		if a[0] == "reqr" && len(toks) == 2 && toks[0] != "" && !strings.ContainsAny(toks[0][:1], "$*>") {
+			// the handler sits on a routed sub-mux (registered before that mux is mounted) and its
+			// first listener comes with the handler itself (Handler.Listeners)
+			s.Route(toks[0], func(m *res.Mux) {
+				lopts := opts
+				if n > 0 {
+					firstAdd = 1
+					lopts = append(append([]res.Option{}, opts...), res.OptionFunc(func(h *res.Handler) {
+						h.Listeners = map[string]func(*res.Event){toks[1]: func(ev *res.Event) { log.add(fmt.Sprintf("L@%d@%s", 0, wire.Enc(ev.Name))) }}
+					}))
+				}
+				m.Handle(toks[1], lopts...)
+			})
+		} else {
+			s.Handle(pat, opts...)
+		}
+		for i := firstAdd; i < n; i++ {
 			i := i
 			s.AddListener(pat, func(ev *res.Event) { log.add(fmt.Sprintf("L@%d@%s", i, wire.Enc(ev.Name))) })
 		}
